@@ -33,6 +33,7 @@ type c09Probe struct {
 	vers   uint32
 	proc   uint32
 	what   string // label of the call made
+	drain  bool   // make the call while a policy update holds policyRWMu
 }
 
 // ---- the netip oracle ----
@@ -177,16 +178,30 @@ func runC09(entries []string, secure bool, probes []c09Probe, kind string, idx i
 		}
 		r.fs.FS.TakeLog()
 		tableBefore := len(r.nfs.VerifFileMap().VerifTable())
+		if p.drain {
+			r.nfs.VerifLockPolicy()
+		}
 		res := r.call(p.prog, p.vers, p.proc, cred, args, p.client, p.port)
+		if p.drain {
+			r.nfs.VerifUnlockPolicy()
+		}
 		calls := len(r.fs.FS.TakeLog())
 		unchanged := len(r.nfs.VerifFileMap().VerifTable()) == tableBefore
 		denied := res.reply.Status == absnfs.MSG_DENIED
 		if !denied && res.reply.Status != absnfs.MSG_ACCEPTED {
 			panic(fmt.Sprintf("reply status %d", res.reply.Status))
 		}
-		coqProbes = append(coqProbes, fmt.Sprintf("PR %s %d %d %s %s %s %d %s", coqClient(p.client), p.port, p.flavor,
+		coqProbes = append(coqProbes, fmt.Sprintf("PR %s %s %d %d %s %s %s %d %s", CBool(p.drain), coqClient(p.client), p.port, p.flavor,
 			CBool(dAuth), CBool(dSrv), CBool(denied), calls, CBool(unchanged)))
-		txt = append(txt, fmt.Sprintf("%q:%d flavor=%d %s(prog %d v%d proc %d) -> isIPAllowed=%v Server.isIPAllowed=%v denied=%v backend_calls=%d table_unchanged=%v",
+		dr := ""
+		if p.drain {
+			dr = "[during policy drain] "
+			tags["during_policy_drain"]++
+			if !dAuth && len(entries) > 0 && !denied {
+				tags["drain_answers_unlisted_host"]++
+			}
+		}
+		txt = append(txt, fmt.Sprintf(dr+"%q:%d flavor=%d %s(prog %d v%d proc %d) -> isIPAllowed=%v Server.isIPAllowed=%v denied=%v backend_calls=%d table_unchanged=%v",
 			p.client, p.port, p.flavor, p.what, p.prog, p.vers, p.proc, dAuth, dSrv, denied, calls, unchanged))
 		// distribution
 		if a, ok := oracleAddr(p.client); ok {
@@ -434,7 +449,7 @@ func genC09(r *Rand, idx int, tier string) Case {
 			fl = 2
 		}
 		probes = append(probes, c09Probe{client: client, port: c09Ports[r.Intn(len(c09Ports))], flavor: fl,
-			prog: c.prog, vers: c.vers, proc: c.proc, what: c.what})
+			prog: c.prog, vers: c.vers, proc: c.proc, what: c.what, drain: r.Chance(6)})
 	}
 	return runC09(entries, secure, probes, "random", idx)
 }
@@ -488,6 +503,9 @@ func corpusC09() []Case {
 		mk("2001:db8::1", 700, "GETATTR"), mk("::1", 700, "MKDIR"), mk("fe80::1%eth0", 700, "GETATTR")}, "v6-all-vs-v4", len(out)))
 	out = append(out, runC09([]string{"0.0.0.0/0"}, true, []c09Probe{mk("10.0.0.1", 1023, "MKDIR"), mk("::ffff:10.0.0.1", 1024, "GETATTR"),
 		mk("2001:db8::1", 1, "GETATTR"), mk("255.255.255.255", 0, "GETATTR")}, "v4-all", len(out)))
+	dr := func(p c09Probe) c09Probe { p.drain = true; return p }
+	out = append(out, runC09([]string{"10.0.0.0/8"}, true, []c09Probe{dr(mk("192.168.1.1", 40000, "NULL")), dr(mk("192.168.1.1", 40000, "MKDIR")),
+		dr(mk("10.1.1.1", 700, "MKDIR")), mk("192.168.1.1", 40000, "NULL"), mk("10.1.1.1", 700, "MKDIR"), dr(mk("192.168.1.1", 1, "MNT"))}, "policy-drain", len(out)))
 	out = append(out, runC09(nil, true, []c09Probe{mk("10.0.0.1", 1023, "MKDIR"), mk("not an address", 1023, "GETATTR"),
 		mk("10.0.0.1", 1024, "MKDIR"), mk("", 65535, "GETATTR"), mk("fe80::1%eth0", 0, "MNT")}, "empty-list-secure", len(out)))
 	var ps []c09Probe
